@@ -477,7 +477,13 @@ impl Memfs {
                     dst.set_mode(file_mode.or(Some(src.mode())));
 
                     // Add the new dst entry to the filesystem
+                    let mode = dst.mode();
                     self._add(guard, dst)?;
+
+                    // An existing destination file gets the mode as well, same as the real filesystem
+                    if let Some(entry) = guard.get_entry_mut(&dst_path) {
+                        entry.set_mode(Some(mode));
+                    }
 
                     // Copy the src file over as well
                     if !src.is_symlink() {
